@@ -219,7 +219,7 @@ pub fn run(case: &Value, ctx: &Ctx) -> Outcome {
                 args.extend(["-s".into(), a.into()]);
             }
             if let Some(f) = file {
-                let p = cli::scratch(ctx, &format!("cli_samples_{name}.txt"), f.as_bytes());
+                let p = cli::scratch(ctx, &format!("cli_samples_{name}_{}.txt", sc["project"]), f.as_bytes());
                 args.extend(["-S".into(), p.clone()]);
                 tmp = Some(p);
             }
